@@ -7,6 +7,7 @@ from __future__ import annotations
 
 import ast
 import copy
+import re
 
 from .core import unparse
 
@@ -259,6 +260,23 @@ def _fname(node):
     return SYNONYMS.get(s, s)
 
 
+_LEN_NONEMPTY = re.compile(r'^(?:lt\(0,(len\(.*\))\)|ne\(0,(len\(.*\))\)|le\(1,(len\(.*\))\))$')
+_LEN_EMPTY = re.compile(r'^(?:eq\(0,(len\(.*\))\)|le\((len\(.*\)),0\)|lt\((len\(.*\)),1\))$')
+
+
+def _len_test(t):
+    """len(x) > 0, len(x) != 0, len(x) >= 1 are one test; so are len(x) == 0, len(x) <= 0, len(x) < 1 (a length is never negative)."""
+    if 'len(' not in t:
+        return t
+    for rx, form in ((_LEN_NONEMPTY, 'lt(0,{})'), (_LEN_EMPTY, 'eq(0,{})')):
+        m = rx.match(t)
+        if m:
+            x = next(g for g in m.groups() if g)
+            if len(_split_top(x)) == 1:
+                return form.format(x)
+    return t
+
+
 def nf(e):
     """Canonical string of an expression."""
     if e is None:
@@ -360,6 +378,7 @@ def nf(e):
             else:
                 parts.append(f'{type(op).__name__.lower()}({a},{b})')
             left = right
+        parts = [_len_test(p_) for p_ in parts]
         return parts[0] if len(parts) == 1 else 'and(' + ','.join(sorted(parts)) + ')'
     if isinstance(e, ast.Call):
         fn = _fname(e.func)
@@ -397,7 +416,13 @@ def nf(e):
     if isinstance(e, (ast.Tuple, ast.List)):
         return ('(' if isinstance(e, ast.Tuple) else '[') + ','.join(nf(x) for x in e.elts) + (')' if isinstance(e, ast.Tuple) else ']')
     if isinstance(e, ast.IfExp):
-        return f'ifexp({nf(e.test)},{nf(e.body)},{nf(e.orelse)})'
+        t, a, b = nf(e.test), nf(e.body), nf(e.orelse)
+        # one polarity: `x if not c else y` == `y if c else x`; an emptiness test is the negation of a non-emptiness test
+        if t.startswith('eq(0,len(') and t.endswith('))'):
+            t, a, b = 'lt(0,' + t[5:], b, a
+        elif t.startswith('not(') and t.endswith(')') and len(_split_top(t[4:-1])) == 1:
+            t, a, b = t[4:-1], b, a
+        return f'ifexp({t},{a},{b})'
     if isinstance(e, ast.Starred):
         return '*' + nf(e.value)
     if isinstance(e, ast.Lambda):
